@@ -242,12 +242,15 @@ inline GFile gen_file(Src &s, const GOpts &o) {
     nlines++;
   };
 
+  // now and then a file with many different sections (a group list has growth steps of its own)
+  const bool many_sections = o.headers && s.chance(4);
+  const int line_limit = many_sections ? std::max(o.max_lines, 36) : o.max_lines;
   for (;;) {
     auto line_span = s.span();
-    if (!(nlines < o.max_lines && s.chance(88))) break;
+    if (!(nlines < line_limit && s.chance(many_sections ? 96 : 88))) break;
     // choose kind; order: simplest first
     bool prev_comment = !f.lines.empty() && f.lines.back().kind == L_COMMENT;
-    size_t k = s.weighted({40, 8, o.comments ? (prev_comment ? 45 : 14) : 0, o.headers ? 12 : 0, (o.blankonly && f.cls != DC_NONE && !prev_entryish) ? 5 : 0,
+    size_t k = s.weighted({40, 8, o.comments ? (prev_comment ? 45 : 14) : 0, o.headers ? (many_sections ? 60 : 12) : 0, (o.blankonly && f.cls != DC_NONE && !prev_entryish) ? 5 : 0,
                            (o.bare && f.cls != DC_NONE && !prev_entryish) ? 6 : 0});
     if (k == 0) {
       // ---------------- ENTRY
@@ -445,7 +448,7 @@ inline GFile gen_file(Src &s, const GOpts &o) {
       PLine l;
       l.kind = L_HEADER;
       std::string name;
-      if (!secpool.empty() && s.chance(50))
+      if (!secpool.empty() && s.chance(many_sections ? 8 : 50))
         name = s.pick(secpool);
       else {
         name = gen_text(s, a_sec, gen_len(s, 1, o.long_fields));
@@ -551,6 +554,7 @@ inline void tag_file_classes(const GFile &f) {
     for (auto &e : f.entries) has = has || e.section == d;
     if (!has) keyless = true;
   }
+  if (f.declared.size() >= 8) g_case.tag("eight_or_more_sections");
   if (q) g_case.tag("quoted");
   if (tr) g_case.tag("trailing_comment");
   if (ct) g_case.tag("continuation");
